@@ -18,8 +18,7 @@ import common
 
 PROP = "C11"
 HEADER = "From Coq Require Import ZArith List.\nImport ListNotations.\nFrom IBL.C11 Require Import Run."
-# "Axioms" is the header line of Print Assumptions' output, which common.print_assumptions' regex also captures
-AXIOMS = ["Axioms", "ClassicalDedekindReals.sig_forall_dec", "ClassicalDedekindReals.sig_not_dec",
+AXIOMS = ["ClassicalDedekindReals.sig_forall_dec", "ClassicalDedekindReals.sig_not_dec",
           "FunctionalExtensionality.functional_extensionality_dep", "Classical_Prop.classic"]
 TRUSTED = [
     "Coq 8.16.1 kernel + vm_compute (no native_compute); Flocq 4.1 BinarySingleNaN as the definition of IEEE-754 "
@@ -139,6 +138,8 @@ def setup_logging():
     lg.setLevel(logging.WARNING)
 
 
+# KeyError has no counterpart in the model (since repair 381463f no modelled path raises it):
+# code 4 can never equal a model output, so a KeyError is always a disagreement (and an oracle failure in-domain)
 EXC_CODE = {"ValueError": 1, "OverflowError": 2, "TypeError": 3, "KeyError": 4}
 
 
